@@ -266,3 +266,246 @@ theorem evalExpr_mono (fuel k : Nat) (c : Ctx) (env : Env) (e : Expr) (h : evalE
     · rw [show fuel + (k + 1) = fuel + k + 1 from rfl, h2, ih]
 
 end Tw
+
+namespace Tw
+
+theorem Stable.bind {α β} {r r' : Res α} {f f' : α → Res β} (h : Stable r r') (hf : ∀ a, Stable (f a) (f' a)) :
+    Stable (r.bind f) (r'.bind f') := by
+  rcases h with h | h
+  · left; rw [h]; rfl
+  · rw [h]
+    cases r with
+    | ok a => exact hf a
+    | err e l as => right; rfl
+    | panic w => right; rfl
+    | oof => left; rfl
+
+theorem Stable.ok {α} (a : α) : Stable (Res.ok a) (Res.ok a) := Or.inr rfl
+
+/-- every function of `k'` agrees with the one of `k` wherever that one did not run out of fuel -/
+structure KStable (k k' : Callees) : Prop where
+  expr : ∀ c env e, Stable (k.expr c env e) (k'.expr c env e)
+  exprs : ∀ c env es, Stable (k.exprs c env es) (k'.exprs c env es)
+  pairs : ∀ c env ps, Stable (k.pairs c env ps) (k'.pairs c env ps)
+  stmt : ∀ c env s, Stable (k.stmt c env s) (k'.stmt c env s)
+  elseIfs : ∀ c env a b, Stable (k.elseIfs c env a b) (k'.elseIfs c env a b)
+  block : ∀ c env ss, Stable (k.block c env ss) (k'.block c env ss)
+  prog : ∀ c env ss acc, Stable (k.prog c env ss acc) (k'.prog c env ss acc)
+  forL : ∀ c env t i cn p b acc, Stable (k.forL c env t i cn p b acc) (k'.forL c env t i cn p b acc)
+  eachL : ∀ c env t v b xs i n acc, Stable (k.eachL c env t v b xs i n acc) (k'.eachL c env t v b xs i n acc)
+
+theorem condTruth_stable {r r' : Res Val} (h : Stable r r') : Stable (condTruth r) (condTruth r') :=
+  Stable.bind h fun _ => Or.inr rfl
+
+theorem stmtBody_stable {k k' : Callees} (h : KStable k k') (c : Ctx) (env : Env) (s : Stmt) :
+    Stable (stmtBody k c env s) (stmtBody k' c env s) := by
+  cases s with
+  | bad => right; rfl
+  | html t => right; rfl
+  | expr t e => exact Stable.bind (h.expr _ _ _) fun _ => Or.inr rfl
+  | assign t name e => exact Stable.bind (h.expr _ _ _) fun _ => Or.inr rfl
+  | ifS t cnd cons alts alt =>
+    refine Stable.bind (h.expr _ _ _) fun v => ?_
+    try dsimp only
+    split
+    · exact Stable.bind (h.block _ _ _) fun _ => Or.inr rfl
+    · exact h.elseIfs _ _ _ _
+  | forS t init cnd post body alt =>
+    simp only [stmtBody]
+    refine Stable.bind ?_ fun env1 => Stable.bind ?_ fun entry => ?_
+    · cases init with
+      | none => right; rfl
+      | some i => exact Stable.bind (h.stmt _ _ _) fun _ => Or.inr rfl
+    · cases cnd with
+      | none => right; rfl
+      | some ce => exact condTruth_stable (h.expr _ _ _)
+    · split
+      · exact Stable.bind (h.forL _ _ _ _ _ _ _ _) fun _ => Or.inr rfl
+      · cases alt with
+        | none => right; rfl
+        | some ab => exact Stable.bind (h.block _ _ _) fun _ => Or.inr rfl
+  | eachS t var arrE body alt =>
+    simp only [stmtBody]
+    refine Stable.bind (h.expr _ _ _) fun av => ?_
+    cases av with
+    | arr xs =>
+      try dsimp only
+      split
+      · cases alt with
+        | none => right; rfl
+        | some ab => exact Stable.bind (h.block _ _ _) fun _ => Or.inr rfl
+      · exact Stable.bind (h.eachL _ _ _ _ _ _ _ _ _) fun _ => Or.inr rfl
+    | _ => right; rfl
+  | use t name =>
+    simp only [stmtBody]
+    cases c.layout with
+    | none => right; rfl
+    | some prog =>
+      try dsimp only
+      split
+      · right; rfl
+      · exact Stable.bind (h.prog _ _ _ _) fun _ => Or.inr rfl
+  | reserve t name rid =>
+    simp only [stmtBody]
+    cases lookupNat c.inserts rid with
+    | none => right; rfl
+    | some ins =>
+      try dsimp only
+      cases ins.block with
+      | some blk => exact Stable.bind (h.block _ _ _) fun _ => Or.inr rfl
+      | none =>
+        try dsimp only
+        cases ins.arg with
+        | none => right; rfl
+        | some ae => exact Stable.bind (h.expr _ _ _) fun _ => Or.inr rfl
+  | insert t name arg block => right; rfl
+  | breakIf t cnd => exact Stable.bind (h.expr _ _ _) fun _ => Or.inr rfl
+  | continueIf t cnd => exact Stable.bind (h.expr _ _ _) fun _ => Or.inr rfl
+  | component t name arg cid =>
+    simp only [stmtBody]
+    cases lookupNat c.comps cid with
+    | none => right; rfl
+    | some prog =>
+      try dsimp only
+      refine Stable.bind ?_ fun kvs => Stable.bind (Or.inr rfl) fun env1 => Stable.bind (h.prog _ _ _ _) fun _ => Or.inr rfl
+      cases arg with
+      | none => right; rfl
+      | some pairs => exact h.pairs _ _ _
+  | slot t name body =>
+    simp only [stmtBody]
+    cases body with
+    | none => right; rfl
+    | some blk => exact Stable.bind (h.block _ _ _) fun _ => Or.inr rfl
+  | dump t args =>
+    simp only [stmtBody]
+    rcases h.exprs c env args with h1 | h1
+    · left; rw [h1]
+    · right; rw [h1]
+  | brk t => right; rfl
+  | cont t => right; rfl
+
+theorem elseIfsBody_stable {k k' : Callees} (h : KStable k k') (c : Ctx) (env : Env) (alts : List (Expr × List Stmt))
+    (alt : Option (List Stmt)) : Stable (elseIfsBody k c env alts alt) (elseIfsBody k' c env alts alt) := by
+  cases alts with
+  | nil =>
+    cases alt with
+    | none => right; rfl
+    | some ab => exact Stable.bind (h.block _ _ _) fun _ => Or.inr rfl
+  | cons p rest =>
+    obtain ⟨ce, body⟩ := p
+    refine Stable.bind (h.expr _ _ _) fun v => ?_
+    try dsimp only
+    split
+    · exact Stable.bind (h.block _ _ _) fun _ => Or.inr rfl
+    · exact h.elseIfs _ _ _ _
+
+theorem blockBody_stable {k k' : Callees} (h : KStable k k') (c : Ctx) (env : Env) (ss : List Stmt) :
+    Stable (blockBody k c env ss) (blockBody k' c env ss) := by
+  cases ss with
+  | nil => right; rfl
+  | cons s r =>
+    refine Stable.bind (h.stmt _ _ _) fun r1 => ?_
+    try dsimp only
+    split
+    · right; rfl
+    · exact Stable.bind (h.block _ _ _) fun _ => Or.inr rfl
+
+theorem progBody_stable {k k' : Callees} (h : KStable k k') (c : Ctx) (env : Env) (ss : List Stmt) (acc : Bytes) :
+    Stable (progBody k c env ss acc) (progBody k' c env ss acc) := by
+  cases ss with
+  | nil => right; rfl
+  | cons s r => exact Stable.bind (h.stmt _ _ _) fun _ => h.prog _ _ _ _
+
+theorem forBody_stable {k k' : Callees} (h : KStable k k') (c : Ctx) (env : Env) (t : Token) (init : Option Stmt)
+    (cnd : Option Expr) (post : Option Stmt) (body : List Stmt) (acc : Bytes) :
+    Stable (forBody k c env t init cnd post body acc) (forBody k' c env t init cnd post body acc) := by
+  simp only [forBody]
+  refine Stable.bind ?_ fun go => ?_
+  · cases cnd with
+    | none => right; rfl
+    | some ce => exact condTruth_stable (h.expr _ _ _)
+  · split
+    · right; rfl
+    · refine Stable.bind (h.block _ _ _) fun r => ?_
+      try dsimp only
+      split
+      · right; rfl
+      · cases post with
+        | none => exact h.forL _ _ _ _ _ _ _ _
+        | some ps =>
+          cases ps with
+          | expr t2 pe =>
+            refine Stable.bind (h.expr _ _ _) fun pv => ?_
+            cases init with
+            | none => exact h.forL _ _ _ _ _ _ _ _
+            | some i =>
+              cases i with
+              | assign t3 name e3 => exact Stable.bind (Or.inr rfl) fun _ => h.forL _ _ _ _ _ _ _ _
+              | _ => exact h.forL _ _ _ _ _ _ _ _
+          | _ => exact Stable.bind (h.stmt _ _ _) fun _ => h.forL _ _ _ _ _ _ _ _
+
+theorem eachBody_stable {k k' : Callees} (h : KStable k k') (c : Ctx) (env : Env) (t : Token) (var : Bytes)
+    (body : List Stmt) (xs : List Val) (i n : Nat) (acc : Bytes) :
+    Stable (eachBody k c env t var body xs i n acc) (eachBody k' c env t var body xs i n acc) := by
+  cases xs with
+  | nil => right; rfl
+  | cons x rest =>
+    refine Stable.bind (Or.inr rfl) fun env1 => Stable.bind (h.block _ _ _) fun r => ?_
+    try dsimp only
+    split
+    · right; rfl
+    · exact h.eachL _ _ _ _ _ _ _ _ _
+
+/-- the functions at fuel `n + 1` agree with those at fuel `n` wherever those did not run out -/
+theorem calleesAt_stable : ∀ n : Nat, KStable (calleesAt n) (calleesAt (n + 1)) := by
+  intro n
+  induction n with
+  | zero =>
+    obtain ⟨e1, e2, e3⟩ := monoExpr 0
+    exact ⟨e1, e2, e3, fun _ _ _ => Or.inl rfl, fun _ _ _ _ => Or.inl rfl, fun _ _ _ => Or.inl rfl,
+      fun _ _ _ _ => Or.inl rfl, fun _ _ _ _ _ _ _ _ => Or.inl rfl, fun _ _ _ _ _ _ _ _ _ => Or.inl rfl⟩
+  | succ n ih =>
+    obtain ⟨e1, e2, e3⟩ := monoExpr (n + 1)
+    exact ⟨e1, e2, e3,
+      fun c env s => stmtBody_stable ih c env s,
+      fun c env a b => elseIfsBody_stable ih c env a b,
+      fun c env ss => blockBody_stable ih c env ss,
+      fun c env ss acc => progBody_stable ih c env ss acc,
+      fun c env t i cn p b acc => forBody_stable ih c env t i cn p b acc,
+      fun c env t v b xs i n acc => eachBody_stable ih c env t v b xs i n acc⟩
+
+/-- statements, blocks, programs: more fuel never changes a result that was not "out of fuel" -/
+theorem evalProg_mono (fuel k : Nat) (c : Ctx) (env : Env) (ss : List Stmt) (acc : Bytes)
+    (h : evalProg fuel c env ss acc ≠ .oof) : evalProg (fuel + k) c env ss acc = evalProg fuel c env ss acc := by
+  induction k with
+  | zero => rfl
+  | succ k ih =>
+    rcases (calleesAt_stable (fuel + k)).prog c env ss acc with h2 | h2
+    · rw [show (calleesAt (fuel + k)).prog = evalProg (fuel + k) from rfl, ih] at h2; exact absurd h2 h
+    · rw [show (calleesAt (fuel + k + 1)).prog = evalProg (fuel + k + 1) from rfl,
+        show (calleesAt (fuel + k)).prog = evalProg (fuel + k) from rfl] at h2
+      rw [show fuel + (k + 1) = fuel + k + 1 from rfl, h2, ih]
+
+theorem evalBlock_mono (fuel k : Nat) (c : Ctx) (env : Env) (ss : List Stmt)
+    (h : evalBlock fuel c env ss ≠ .oof) : evalBlock (fuel + k) c env ss = evalBlock fuel c env ss := by
+  induction k with
+  | zero => rfl
+  | succ k ih =>
+    rcases (calleesAt_stable (fuel + k)).block c env ss with h2 | h2
+    · rw [show (calleesAt (fuel + k)).block = evalBlock (fuel + k) from rfl, ih] at h2; exact absurd h2 h
+    · rw [show (calleesAt (fuel + k + 1)).block = evalBlock (fuel + k + 1) from rfl,
+        show (calleesAt (fuel + k)).block = evalBlock (fuel + k) from rfl] at h2
+      rw [show fuel + (k + 1) = fuel + k + 1 from rfl, h2, ih]
+
+theorem evalStmt_mono (fuel k : Nat) (c : Ctx) (env : Env) (s : Stmt)
+    (h : evalStmt fuel c env s ≠ .oof) : evalStmt (fuel + k) c env s = evalStmt fuel c env s := by
+  induction k with
+  | zero => rfl
+  | succ k ih =>
+    rcases (calleesAt_stable (fuel + k)).stmt c env s with h2 | h2
+    · rw [show (calleesAt (fuel + k)).stmt = evalStmt (fuel + k) from rfl, ih] at h2; exact absurd h2 h
+    · rw [show (calleesAt (fuel + k + 1)).stmt = evalStmt (fuel + k + 1) from rfl,
+        show (calleesAt (fuel + k)).stmt = evalStmt (fuel + k) from rfl] at h2
+      rw [show fuel + (k + 1) = fuel + k + 1 from rfl, h2, ih]
+
+end Tw
